@@ -219,12 +219,36 @@ fn attacks(rng: &mut Rng, thorough: bool) -> Vec<Attack> {
         out.push(Attack { name: "apng-tiny-subframes-huge-canvas", file: serialize(&cs) });
         let _ = z1;
     }
+    // 8. APNG: a narrow first frame, then frames as wide as a huge canvas (the row buffers of EVERY frame have to be
+    //    charged, not only those of the first; seeded change C06_3)
+    for (w, depth, color, bpp, later) in [(1u32 << 22, 8u8, 6u8, 4usize, 1usize), (1 << 21, 16, 6, 8, 2), (1 << 23, 8, 0, 1, 1), (1 << 22, 8, 3, 1, 1)] {
+        let px = |n: usize| -> Vec<u8> { let mut r = vec![0u8]; r.extend(std::iter::repeat(0u8).take(n * bpp)); r };
+        let mut cs = vec![ihdr(w, 1, depth, color, 0)];
+        if color == 3 {
+            cs.push(RawChunk::new(b"PLTE", vec![1, 2, 3, 4, 5, 6]));
+        }
+        cs.push(actl(1 + later as u32, 0));
+        let mut seq = 0u32;
+        cs.push(Fctl { seq, w: 1, h: 1, x: 0, y: 0, delay_num: 1, delay_den: 1, dispose: 0, blend: 0 }.chunk());
+        seq += 1;
+        cs.push(RawChunk::new(b"IDAT", zlib_stream(&px(1), &Deflater::Stored(100))));
+        for _ in 0..later {
+            cs.push(Fctl { seq, w, h: 1, x: 0, y: 0, delay_num: 1, delay_den: 1, dispose: 0, blend: 0 }.chunk());
+            seq += 1;
+            let mut d = seq.to_be_bytes().to_vec();
+            seq += 1;
+            d.extend(zlib_stream(&px(w as usize), &Deflater::Level(9)));
+            cs.push(RawChunk::new(b"fdAT", d));
+        }
+        cs.push(RawChunk::new(b"IEND", vec![]));
+        out.push(Attack { name: "apng-narrow-first-frame-wide-later-frames", file: serialize(&cs) });
+    }
     out
 }
 
 pub fn run(ctx: &mut Ctx) {
     ctx.rep.rule = format!("adversarial files: deflate bombs (matching and behind a small header), IHDR dimensions up to 2^31-1 with tiny data (both interlace methods), chunk length fields near 2^31 with short bodies, \
-        floods of 12000+ ancillary chunks (tEXt/zTXt/iTXt/unknown/eXIf/gAMA, before and after IDAT), ancillary chunks of 40 KB..5 MB, expanding iCCP/zTXt/iTXt (1 MiB and 32 MiB), a 400-frame APNG with 1x1 sub-frames on a 2^24-wide canvas \
+        floods of 12000+ ancillary chunks (tEXt/zTXt/iTXt/unknown/eXIf/gAMA, before and after IDAT), ancillary chunks of 40 KB..5 MB, expanding iCCP/zTXt/iTXt (1 MiB and 32 MiB), a 400-frame APNG with 1x1 sub-frames on a 2^24-wide canvas, APNGs whose first frame is 1x1 and whose later frames are as wide as a 2^21..2^23-pixel canvas \
         x L in {{64 KiB, 256 KiB, 1 MiB, 16 MiB, 64 MiB}} x transformation sets x paths (next_frame with pre-allocated caller buffer, next_row, read_info+finish); measured: peak live heap bytes of the process above the baseline at Decoder construction \
         (caller buffers and the input are allocated before); oracle: peak <= {}*L + {} bytes; non-trivial: all; distinct = hash(file, L, flags, path)", SLOPE, CONST);
     let mut rng = ctx.rng.fork(1);
